@@ -131,6 +131,59 @@ func Corpus12() []*GCase {
 		c.DB = []RefTable{{Table: "ref_t", Column: "c", Vals: [][]byte{B}}}
 		res = append(res, c)
 	}
+	// a positive log_addr argument filter next to PURE reference filters: under "or" a log of
+	// another contract whose value is in the referenced table is accepted, so no address may be sent
+	refCase := func(name, agg string, onInput bool, refArgs []string) *GCase {
+		W1, W2, W3 := rep(0xc1, 20), rep(0xc2, 20), rep(0xc3, 20)
+		ref := Flt{Op: "contains", Args: refArgs, RefIG: "ig_ref_t", RefTable: "ref_t", RefCol: "c"}
+		d := Decl{Name: name, Event: "R", Agg: agg, Inputs: []Input{
+			{Name: "a", Indexed: true, Type: "uint256", Column: "a"},
+			{Name: "w", Indexed: true, Type: "address", Column: "w"},
+			{Name: "u", Type: "bool", Flt: Flt{Op: "eq", Args: []string{"0x01"}}}}, // no column: never evaluated
+			Block: []BD{{Name: "log_addr", Column: "log_addr", Flt: Flt{Op: "contains", Args: []string{hx(A)}}},
+				{Name: "log_idx", Column: "log_idx"}, {Name: "tx_signer", Column: "tx_signer"}}}
+		if onInput {
+			d.Inputs[1].Flt = ref
+		} else {
+			d.Block[2].Flt = ref
+		}
+		sh := d.SigHash()
+		mk := func(a string, w, addr []byte, idx uint64) Log {
+			return BuildLog(d, sh, []Val{uintVal(a), {Bytes: w}, {Bool: true}}, addr, idx)
+		}
+		t0 := fixedTx(0, []Log{mk("5", W1, A, 0), mk("5", W2, B, 1)}, nil)
+		t1 := fixedTx(1, []Log{mk("6", W1, B, 2), mk("6", W3, A, 3)}, nil)
+		t1.From = W2
+		c := finish(&GCase{Kind: "corpus-pushdown-ref", Path: "pushdown", Decl: d, Blocks: []Block{fixedBlock(1, t0, t1)}})
+		c.DB = []RefTable{{Table: "ref_t", Column: "c", Vals: [][]byte{W2}}}
+		return c
+	}
+	for _, agg := range []string{"or", "", "and"} {
+		res = append(res, refCase("p_ref_in_"+agg, agg, true, nil))
+		res = append(res, refCase("p_ref_bd_"+agg, agg, false, nil))
+	}
+	res = append(res, refCase("p_ref_in_args", "or", true, []string{hx(A)})) // reference filter that also has literal arguments
+	{                                                                        // a pure reference filter on log_addr itself next to the argument filter
+		c := refCase("p_ref_self", "or", true, nil)
+		c.Decl.Inputs[1].Flt = Flt{}
+		c.Decl.Block = append(c.Decl.Block, BD{Name: "log_addr", Column: "log_addr_ref",
+			Flt: Flt{Op: "contains", RefIG: "ig_ref_t", RefTable: "ref_t", RefCol: "c"}})
+		c.Decl.TableCols = append(c.Decl.TableCols, "log_addr_ref")
+		c.DB = []RefTable{{Table: "ref_t", Column: "c", Vals: [][]byte{B}}}
+		res = append(res, c)
+	}
+	for i, c := range res {
+		if c.Kind == "corpus-pushdown-ref" && i%2 == 0 && Validatable(c) {
+			v := *c
+			v.Decl.Block = append([]BD{}, c.Decl.Block...)
+			v.Decl.TableCols = append([]string{}, c.Decl.TableCols...)
+			v.Decl.Name += "_v"
+			WithRequired(&v.Decl)
+			v.Validated = true
+			v.Kind += "+validated"
+			res = append(res, &v)
+		}
+	}
 	for _, c := range res {
 		d := *c
 		d.Path = "direct"
